@@ -10,3 +10,13 @@ func (p *BruteForceProtector) VerifUnbanIfExpired(ip string)   { p.unbanIfExpire
 func (m *IPManager) VerifCleanup()                             { m.cleanup() }
 func (m *IPManager) VerifRemoveExpiredFromBlacklist(ip string) { m.removeExpiredFromBlacklist(ip) }
 func (r *RateLimiter) VerifCleanup()                           { r.cleanup() }
+
+// C18, AllowIP cut at its lock boundaries: the table lock (to park callers in front of the lookup),
+// and the lookup section itself (what allow() does under RLock before it calls Take on the result).
+func (r *RateLimiter) VerifLockIPTable()   { r.ipMu.Lock() }
+func (r *RateLimiter) VerifUnlockIPTable() { r.ipMu.Unlock() }
+func (r *RateLimiter) VerifBucket(ip string) *TokenBucket {
+	r.ipMu.RLock()
+	defer r.ipMu.RUnlock()
+	return r.ipBuckets[ip]
+}
